@@ -394,8 +394,21 @@ def poly_part(run, tier, g):
         if op == 'uminus':
             return -pexpr(d - 1)
         if op == 'power':
-            return kterm.nat_power(RealType)(pexpr(d - 1), Nat(r.randint(0, 3)))
+            return kterm.nat_power(RealType)(pexpr(d - 1), nat_exponent())
         return kterm.divides(RealType)(pexpr(d - 1), Real(r.choice([1, 2, 3, Fraction(1, 2), 0])))
+
+    def nat_exponent():
+        """A natural-number exponent: a numeral, or an expression in which subtraction is truncated."""
+        c = r.random()
+        if c < 0.6:
+            return Nat(r.randint(0, 3))
+        a_, b_ = r.randint(0, 3), r.randint(0, 4)
+        e = kterm.minus(NatType)(Nat(a_), Nat(b_))
+        if r.random() < 0.7:
+            e = kterm.plus(NatType)(e, Nat(r.randint(0, 2) if a_ >= b_ else r.randint(b_ - a_, b_ - a_ + 2)))
+        if r.random() < 0.2:
+            e = kterm.times(NatType)(Nat(r.randint(1, 2)), e)
+        return e
 
     def rearr(t):
         """An expression equal to t as a polynomial (commute / reassociate / distribute) or a near miss."""
@@ -429,7 +442,7 @@ def poly_part(run, tier, g):
             y = valuation_eval(t.arg, env)
             return Fraction(0) if y == 0 else valuation_eval(t.arg1, env) / y
         if t.is_comb('power', 2):
-            return valuation_eval(t.arg1, env) ** int(t.arg.dest_number())
+            return valuation_eval(t.arg1, env) ** int(py_sem(t.arg))      # the exponent is a ground natural-number term
         raise ValueError
 
     n = 150 if tier == 'quick' else 2000
@@ -443,6 +456,22 @@ def poly_part(run, tier, g):
             b = rearr(a) + Real(r.choice([1, -1]))
         else:
             b = pexpr(2)
+        if _ % 3 == 2:
+            # a truncated exponent against the numeral it denotes / the numeral an untruncated reading would give
+            E_ = None
+            for _k in range(10):
+                cand = nat_exponent()
+                if not cand.is_number():
+                    E_ = cand
+                    break
+            if E_ is not None:
+                base = r.choice(xs + [Real(2), Real(3)])
+                tv, pv = int(py_sem(E_)), int(py_sem_plain(E_))
+                k_ = tv if (r.random() < 0.35 or pv < 0) else pv
+                a = kterm.nat_power(RealType)(base, E_)
+                b = kterm.nat_power(RealType)(base, Nat(k_)) if r.random() < 0.6 else (Real(Fraction(py_sem(base)) ** k_) if base.is_number() else kterm.nat_power(RealType)(base, Nat(k_)))
+                if r.random() < 0.3:
+                    a, b = a * base, b * base
         goal = Eq(a, b)
         th, err = check_step('real_norm', goal)
         run.stat('real_norm:' + ('acc' if th is not None else 'rej'))
